@@ -19,6 +19,16 @@ import Std.Data.HashSet
 open Nstd.Common
 namespace Nstd.Future
 
+/-- the part of the extended state (`XState`) the replay carries beside the model state: refused threads (unrepaired failure
+    branch), threads inside the repaired failure handler (fixes/future/0006), and which of the two branches the library has -/
+structure Env where
+  dead : List Tid := []
+  fixing : List (Tid × Nat × Nat) := []
+  sfix : Bool := false
+
+def Env.x (e : Env) (s : State) : XState := { s := s, dead := e.dead, fixing := e.fixing }
+def Env.ov (e : Env) (t : Tid) : Option Nat := (e.fixing.find? (fun x => x.1 == t)).map (·.2.1)
+
 structure DState where
   st : Option State := none
   steps : Nat := 0
@@ -27,7 +37,7 @@ structure DState where
   split : Bool := false       -- scheduler split mode: the run-on after an operation is a scheduler step of its own
   cont : List Tid := []       -- split mode: threads that have performed their operation and not yet run on
   cf : Nat := 0               -- environment: which creations of pool workers fail (bit mask over context ids)
-  dead : List Tid := []       -- threads whose creation failed (never run)
+  dead : Env := {}            -- refused threads / threads in the repaired failure handler / which failure branch the library has (cfg option sfix)
   pcs : Std.HashSet String := {}   -- coverage of the model: frame constructors stepped and edges taken in this run
 
 def kvNat (ws : List String) (key : String) (dflt : Nat) : Nat :=
@@ -126,27 +136,43 @@ def topTag (s : State) (t : Tid) : String :=
 
 /-- driver-only rule for the END of a run with failed thread creations: `~ThreadPool`'s join loop meets the context of a
     never-started thread; `Thread::join` returns at once (`if(!thread) return 0;`), no scheduling point -/
-def passDead (dead : List Tid) (s : State) (t : Tid) : Option State :=
+def passDead (dead : Env) (s : State) (t : Tid) : Option State :=
   match s.threads t, s.pool with
   | some th, some p =>
     match th.stack with
     | .dJoin i :: _ =>
       match p.ctxs[i]? with
       | some { tid := some w, .. } =>
-        if dead.contains w then some (setThread s t (th.cont [if i + 1 < p.ctxs.length then .dJoin (i + 1) else .dFin])) else none
+        if dead.dead.contains w then some (setThread s t (th.cont [if i + 1 < p.ctxs.length then .dJoin (i + 1) else .dFin])) else none
       | _ => none
     | _ => none
   | _, _ => none
 
 /-- one micro-step of the replay: the extended system of `SpawnFail.lean` (environment = bit mask `cf`) -/
-def stepD (cf : Nat) (dead : List Tid) (s : State) (t : Tid) : Option (State × List String × List Tid) :=
-  if dead.contains t then none else
+def stepD (cf : Nat) (dead : Env) (s : State) (t : Tid) : Option (State × List String × Env) :=
+  if dead.sfix then
+    match xmoveFix cf (dead.x s) t with
+    | some (x', o) => some (x'.s, o, { dead with fixing := x'.fixing })
+    | none => none
+  else
+  if dead.dead.contains t then none else
   match passDead dead s t with
   | some s' => some (s', [], dead)
   | none =>
-    match xmove cf { s := s, dead := dead } t with
-    | some (x', o) => some (x'.s, o, x'.dead)
+    match xmove cf (dead.x s) t with
+    | some (x', o) => some (x'.s, o, { dead with dead := x'.dead })
     | none => none
+
+/-- enabledness in the replay: a thread inside the repaired failure handler waits for the pool mutex only -/
+def enabledD (dead : Env) (s : State) (t : Tid) : Bool :=
+  match dead.ov t with
+  | some _ => xfixEnabled (dead.x s) t
+  | none => enabled s t
+
+def tagD (dead : Env) (t : Tid) (fr : Frame) : String :=
+  match dead.ov t with
+  | some pc => s!"xFix{pc}"
+  | none => frameTag fr
 
 /-- with the source hooks (fixes/future/hook-0001) the plain volatile accesses of the pool are scheduling points as
     well; the line the scheduler prints for such a point -/
@@ -168,11 +194,23 @@ def hookLine (s : State) : Frame → Option String
 
 def isSyncH (hooks : Bool) (s : State) (fr : Frame) : Bool := fr.isSync || (hooks && (hookLine s fr).isSome)
 
-/-- scheduling point of the replay: as `isSyncH`, except the join of a never-started thread (no `pthread_join` call) -/
-def isSyncD (hooks : Bool) (dead : List Tid) (s : State) (t : Tid) (fr : Frame) : Bool :=
-  isSyncH hooks s fr && (passDead dead s t).isNone
+/-- `~ThreadPool` joins a context whose thread was never started (repaired failure branch: the context stays listed, terminated, without
+    a thread): `Thread::join` returns at once (`if(!thread) return 0;`), there is no `pthread_join`, hence no scheduling point -/
+def neverStartedJoin (s : State) : Frame → Bool
+  | .dJoin i => match s.pool with
+    | some p => (match p.ctxs[i]? with
+      | some { tid := none, .. } => true
+      | _ => false)
+    | none => false
+  | _ => false
 
-def topIsSyncH (hooks : Bool) (dead : List Tid) (s : State) (t : Tid) : Bool :=
+/-- scheduling point of the replay: as `isSyncH`, except the join of a never-started thread (no `pthread_join` call) -/
+def isSyncD (hooks : Bool) (dead : Env) (s : State) (t : Tid) (fr : Frame) : Bool :=
+  match dead.ov t with
+  | some pc => pc != 1        -- handler: lock and unlock are scheduling points, the two plain stores are not
+  | none => isSyncH hooks s fr && (passDead dead s t).isNone && !neverStartedJoin s fr
+
+def topIsSyncH (hooks : Bool) (dead : Env) (s : State) (t : Tid) : Bool :=
   match s.threads t with
   | some { stack := fr :: _, finished := false, .. } => isSyncD hooks dead s t fr
   | _ => false
@@ -181,11 +219,15 @@ def topIsSyncH (hooks : Bool) (dead : List Tid) (s : State) (t : Tid) : Bool :=
 structure RunAcc where
   out : List String := []
   n : Nat := 0
-  dead : List Tid := []
+  dead : Env := {}
   tags : List String := []
 
-def RunAcc.add (a : RunAcc) (fr : Frame) (s' : State) (t : Tid) (o : List String) (dead' : List Tid) : RunAcc :=
-  { out := a.out ++ o, n := a.n + 1, dead := dead', tags := (frameTag fr ++ ">" ++ topTag s' t) :: frameTag fr :: a.tags }
+def RunAcc.add (a : RunAcc) (fr : Frame) (s' : State) (t : Tid) (o : List String) (dead' : Env) : RunAcc :=
+  let src := tagD a.dead t fr
+  let dst := match dead'.ov t with
+    | some pc => s!"xFix{pc}"
+    | none => topTag s' t
+  { out := a.out ++ o, n := a.n + 1, dead := dead', tags := (src ++ ">" ++ dst) :: src :: a.tags }
 
 /-- `runOn` with the hook frames as additional scheduling points and the environment `cf`; also counts the micro-steps -/
 def runOnH (hooks : Bool) (cf : Nat) : Nat → State → Tid → RunAcc → State × RunAcc
@@ -199,13 +241,13 @@ def runOnH (hooks : Bool) (cf : Nat) : Nat → State → Tid → RunAcc → Stat
         | none => (s, a)
     | _ => (s, a)
 
-def macroStepH (hooks : Bool) (cf : Nat) (dead : List Tid) (s : State) (t : Tid) : Option (State × RunAcc) :=
+def macroStepH (hooks : Bool) (cf : Nat) (dead : Env) (s : State) (t : Tid) : Option (State × RunAcc) :=
   match s.threads t with
   | some { stack := fr :: _, finished := false, .. } =>
     if isSyncD hooks dead s t fr then
       match stepD cf dead s t with
       | some (s', o, dead') =>
-        let pre := if fr.isSync then [] else (hookLine s fr).toList
+        let pre := if fr.isSync || (dead.ov t).isSome then [] else (hookLine s fr).toList
         some (runOnH hooks cf 10000 s' t (({ dead := dead } : RunAcc).add fr s' t (pre ++ o) dead'))
       | none => none
     else none
@@ -217,13 +259,13 @@ def noPost : Frame → Bool
   | .sWaitCwait _ | .sWaitCwake _ | .tExit | .runSpawned _ | .mSpawned _ _ => true
   | fr => !fr.isSync
 
-def liveThreads (s : State) (dead : List Tid := []) : List Tid :=
-  (List.range s.nthreads).filter (fun t => !dead.contains t && match s.threads t with
+def liveThreads (s : State) (dead : Env := {}) : List Tid :=
+  (List.range s.nthreads).filter (fun t => !dead.dead.contains t && match s.threads t with
     | some th => !th.finished
     | none => false)
 
-def enabledList (hooks : Bool) (s : State) (cont : List Tid := []) (dead : List Tid := []) : List Tid :=
-  (liveThreads s dead).filter (fun t => cont.contains t || (topIsSyncH hooks dead s t && enabled s t))
+def enabledList (hooks : Bool) (s : State) (cont : List Tid := []) (dead : Env := {}) : List Tid :=
+  (liveThreads s dead).filter (fun t => cont.contains t || (topIsSyncH hooks dead s t && enabledD dead s t))
 
 def pendName (s : State) (t : Tid) : String :=
   match s.threads t with
@@ -443,7 +485,8 @@ def stepLine (d : DState) (ws : List String) : DState × String :=
     | some cfg =>
       let hooks := kvNat ((splitBars rest).headD []) "hooks" 0 = 1
       let cf := kvNat ((splitBars rest).headD []) "cf" 0
-      let (s, a) := runOnH hooks cf 10000 (State.init cfg) 0 {}
+      let sfix := kvNat ((splitBars rest).headD []) "sfix" 0 = 1
+      let (s, a) := runOnH hooks cf 10000 (State.init cfg) 0 { dead := { sfix := sfix } }
       ({ st := some s, steps := 0, micro := List.replicate a.n 0, hooks := hooks, split := kvNat ((splitBars rest).headD []) "split" 0 = 1,
          cf := cf, dead := a.dead, pcs := a.tags.foldl (fun h x => h.insert x) {} },
         "\n".intercalate ("ok" :: a.out))
@@ -463,7 +506,7 @@ def stepLine (d : DState) (ws : List String) : DState × String :=
       match (if d.split then
           (match s.threads t with
            | some { stack := fr :: _, finished := false, .. } =>
-             if isSyncD d.hooks d.dead s t fr && !noPost fr then
+             if isSyncD d.hooks d.dead s t fr && !(noPost fr && (d.dead.ov t).isNone) then
                (match stepD d.cf d.dead s t with
                 | some (s', o, dead') => some (s', (({ dead := d.dead } : RunAcc).add fr s' t o dead'), true)
                 | none => none)
@@ -482,7 +525,7 @@ def stepLine (d : DState) (ws : List String) : DState × String :=
       let live := liveThreads s d.dead
       if live.isEmpty then (d, s!"V DONE steps={d.steps}")
       else if (enabledList d.hooks s d.cont d.dead).isEmpty then
-        (d, "D " ++ " ".intercalate (live.map (fun t => s!"t{t}:{pendName s t}")) ++ s!"\nV DEADLOCK steps={d.steps}")
+        (d, "D " ++ " ".intercalate (live.map (fun t => s!"t{t}:{if (d.dead.ov t).isSome then "lock:pool.m" else pendName s t}")) ++ s!"\nV DEADLOCK steps={d.steps}")
       else (d, s!"V RUNNING steps={d.steps}")
     | none => (d, "bad-op")
   | "X" :: maxs :: rest =>
